@@ -420,6 +420,8 @@ def threaded_case(case):
     from pyoda_time.testing import FakeClock
     if case[0] == "mixed":
         return mixed_threads_case(case)
+    if case[0] == "reset-race":
+        return reset_race_case(case)
     nthr, k, now, auto, advancers, use_unit = case
     clock = FakeClock(inst(*split(now)), dur(*split(auto)))
     start = threading.Barrier(nthr + advancers)
@@ -540,9 +542,76 @@ def mixed_threads_case(case):
     return None
 
 
+def reset_race_case(case):
+    """("reset-race", n_readers, seconds, what): one thread resets (or advances) the clock and reads it back while other
+    threads keep reading with a 1 ns auto-advance. In the model every operation is one atomic step, so the read that
+    follows reset(X) on the same thread is X plus one nanosecond per read the other threads got in between - never a
+    value from before the reset (a lost update of a read-modify-write that the reset fell into)."""
+    import sys
+    from pyoda_time.testing import FakeClock
+    _, nread, seconds, what = case
+    HOUR = 3600 * 10**9
+    clock = FakeClock(inst(0, 0), dur(0, 1))
+    stop = threading.Event()
+    reads = [0] * nread
+
+    def reader(i):
+        while not stop.is_set():
+            clock.get_current_instant()
+            reads[i] += 1
+
+    ths = [threading.Thread(target=reader, args=(i,), daemon=True) for i in range(nread)]
+    old = sys.getswitchinterval()
+    sys.setswitchinterval(1e-6)
+    bad = None
+    n = 0
+    try:
+        for th in ths:
+            th.start()
+        t0 = time.time()
+        cur = 0
+        while time.time() - t0 < seconds and bad is None:
+            n += 1
+            if what == "reset":
+                cur = (n * HOUR) % (10**6 * HOUR)
+                clock.reset(add_instant_ns(cur))
+                lo = cur
+            else:
+                before = ns_of(clock.get_current_instant())
+                clock.advance(dur(0, HOUR))
+                lo = before + HOUR
+            r = ns_of(clock.get_current_instant())
+            if not (lo <= r < lo + HOUR // 2):
+                bad = (n, lo, r)
+    finally:
+        stop.set()
+        for th in ths:
+            th.join(5)
+        sys.setswitchinterval(old)
+    if bad:
+        n, lo, r = bad
+        return {"key": "fakeclock-update-lost-under-concurrent-reads", "what": f"{what} #{n} returned, and the next read on the same thread gave "
+                f"{r} ns since the epoch; every linearisation of the history gives at least {lo} (and less than half an hour more): "
+                f"the {what} was overwritten by a concurrent read's write-back ({sum(reads)} reads by {nread} other threads so far)"}
+    return None
+
+
+def add_instant_ns(ns):
+    return inst(ns // NPD_, ns % NPD_)
+
+
+def ns_of(i):
+    return i._days_since_epoch * NPD_ + i._nanosecond_of_day
+
+
+NPD_ = 86_400 * 10**9
+
+
 def threaded_cases(ctx):
     rng = ctx.rng
     out = []
+    for nread, what in ((2, "reset"), (4, "reset"), (2, "advance")):
+        out.append(("reset-race", nread, ctx.scale(1.5, 12.0), what))
     for nthr in ([2, 3, 4, 8, 16] if not ctx.thorough else list(range(2, 17))):
         for rep in range(ctx.scale(2, 12)):
             auto = rng.choice([1, -1, 100, 10**9, -10**9, rng.randint(1, 10**12), -rng.randint(1, 10**12)])
@@ -750,6 +819,6 @@ def replay_op(op, failure):
         return oracle(op.split(" "))
     import ast
     case = ast.literal_eval(op)
-    if isinstance(case, tuple) and len(case) == 6:
+    if isinstance(case, tuple) and (len(case) == 6 or case[0] in ("mixed", "reset-race")):
         return threaded_case(case)
     return check_other(case)
